@@ -1160,32 +1160,41 @@ def rule_last_window(ctx, repo):
     cls = repo.cls(SKT + ":_BaseWindowForecaster")
     fn = repo.func(SKT, "_BaseWindowForecaster._get_last_window")
     loc = ctx.loc(cls.module, fn)
+    A = Lin.sym("a")  # observations stored after the cutoff (update() with old data / detached cutoff moves the cutoff inside the series)
     for with_X in (False, True):
         tag = "_get_last_window[X=%s]" % ("given" if with_X else "None")
         rec = Rec()
         it = make_interp(repo, rec, with_X)
-        selfv = SelfV(cls, {"_y": Ser("y", N, T), "_X": Ser("X", N, T, NX) if with_X else K(None), "_cutoff": T, "window_length_": W})
+        selfv = SelfV(cls, {"_y": Ser("y", N, T + A), "_X": Ser("X", N, T + A, NX) if with_X else K(None), "_cutoff": T, "window_length_": W})
         f = base_facts(with_X)
         f.add_cmp(W, ">=", 1, "window length validated in fit")
-        f.add_cmp(W, "<=", N, "window not longer than the series")
+        f.add_cmp(A, ">=", 0, "the cutoff is a stored time point, possibly not the last one")
+        f.add_cmp(W, "<=", N - A, "window not longer than the series up to the cutoff")
         traces, fst = it.run_function(Frame(cls.module, fn, cls, cls), {"self": selfv}, State(facts=f))
         rets = [o[1] for s, o in traces if o[0] == "return"]
         if len(rets) != 1 or not isinstance(rets[0], Tup) or len(rets[0].items) != 2:
             ctx.undecided("R3", tag, "unexpected return structure %r" % (rets,), loc)
             continue
         yw, Xw = rets[0].items
-        envs = feasible(grid(with_X), f)
+        envs = []
+        for e in grid(with_X):
+            for a in (0, 2):
+                ints = dict(e.ints)
+                ints["a"] = a
+                envs.append(Env(ints, e.vecs))
+        envs = feasible(envs, f)
         if not (isinstance(yw, Nd) and yw.ndim == 1):
             ctx.undecided("R3", tag + ":y", "last window is %r" % (yw,), loc)
             continue
         eq_lin(ctx, "R3", tag + ":length", loc, yw.shape[0], W, f, envs, "length of the last window")
-        check_cells(ctx, "R3", tag + ":y", loc, yw, [("c", ZERO, W)], lambda cc, q: y_src(q.ev(N - W + cc[0])), f, envs,
-                    "last window = y[cutoff - w + 1 .. cutoff] (inclusive label slice)", "last window")
+        check_cells(ctx, "R3", tag + ":y", loc, yw, [("c", ZERO, W)], lambda cc, q: y_src(q.ev(N - A - W + cc[0])), f, envs,
+                    "last window = the w observations with labels cutoff - w + 1 .. cutoff (wherever the cutoff lies in the stored series)",
+                    "last window (a = number of stored observations after the cutoff)")
         if with_X:
             if isinstance(Xw, Nd) and Xw.ndim == 2:
                 eq_lin(ctx, "R3", tag + ":X-length", loc, Xw.shape[0], W, f, envs, "length of the exogenous last window")
                 check_cells(ctx, "R3", tag + ":X", loc, Xw, [("c", ZERO, W), ("u", ZERO, NX)],
-                            lambda cc, q: x_src(q.ev(N - W + cc[0]), q.ev(cc[1])), f, envs,
+                            lambda cc, q: x_src(q.ev(N - A - W + cc[0]), q.ev(cc[1])), f, envs,
                             "exogenous last window covers the same labels", "exogenous last window")
             else:
                 ctx.undecided("R3", tag + ":X", "exogenous last window is %r" % (Xw,), loc)
